@@ -135,10 +135,25 @@ def _entry_fits(f):
     return all(45 + sum(2 + len(v) for v in c.description.values()) <= 255 for c in f.components)
 
 
+def keyform(rec, key):
+    """the session key handed over as bytes / bytearray / memoryview in turn (all three are accepted by the library; the
+    recorded event carries the VALUE, so the specification demands the same result for each)"""
+    return (bytes, bytearray, memoryview)[rec.tid % 3](key)
+
+
 def rec_to_binary(rec, f, off, key, **extra):
     pj = proj_file(f)["comps"]
     try:
-        out = f.to_binary(off, key)
+        # call forms: positional, keyword, and - when the value IS the documented default - the argument omitted
+        form = rec.tid % 4
+        if key == ZERO_KEY and off == 0 and form in (0, 1):
+            out = f.to_binary()
+        elif key == ZERO_KEY and form in (0, 1):
+            out = f.to_binary(off)
+        elif form == 2:
+            out = f.to_binary(session_key=keyform(rec, key), offset=off)
+        else:
+            out = f.to_binary(off, keyform(rec, key))
     except Exception as e:                                # noqa: BLE001
         if isinstance(e, OverflowError) and not _entry_fits(f):
             raise                                          # the writer refuses an entry longer than 255 bytes: legitimate
@@ -153,21 +168,33 @@ def rec_to_binary(rec, f, off, key, **extra):
     return rec.add(ev), out
 
 
-def write_text(f, key, disk, scratch):
+def write_text(f, key, disk, scratch, form=0):
+    dflt = bytes(key) == ZERO_KEY and form % 2 == 0          # the documented default session key: argument omitted
+    kw = form % 4 == 3
     if disk:
         p = os.path.join(scratch, "w.bf3")
-        f.write_file(p, key)
+        if dflt:
+            f.write_file(p)
+        elif kw:
+            f.write_file(bf3file=p, session_key=key)
+        else:
+            f.write_file(p, key)
         with open(p, "rb") as fh:
             return fh.read().decode("utf-8")
     s = io.StringIO()
-    f.write_file(s, key)
+    if dflt:
+        f.write_file(s)
+    elif kw:
+        f.write_file(bf3file=s, session_key=key)
+    else:
+        f.write_file(s, key)
     return s.getvalue()
 
 
 def rec_write(rec, f, key, disk, scratch):
     pj = proj_file(f)
     try:
-        text = write_text(f, key, disk, scratch)
+        text = write_text(f, keyform(rec, key), disk, scratch, rec.tid)
     except Exception as e:                                # noqa: BLE001
         if isinstance(e, OverflowError) and not _entry_fits(f):
             raise
@@ -180,20 +207,27 @@ def rec_write(rec, f, key, disk, scratch):
     return text
 
 
-def read_text(text, key, check, disk, scratch):
+def read_text(text, key, check, disk, scratch, form=3):
+    src = io.StringIO(text)
     if disk:
-        p = os.path.join(scratch, "r.bf3")
-        with open(p, "wb") as fh:
+        src = os.path.join(scratch, "r.bf3")
+        with open(src, "wb") as fh:
             fh.write(text.encode("utf-8"))
-        return Bf3File.read_file(p, check, key)
-    return Bf3File.read_file(io.StringIO(text), check, key)
+    dk, dc = bytes(key) == ZERO_KEY, check is True          # documented defaults: zero key, MAC checking on
+    if dk and dc and form % 4 == 0:
+        return Bf3File.read_file(src)
+    if dk and form % 4 == 1:
+        return Bf3File.read_file(src, check)
+    if form % 4 == 2:
+        return Bf3File.read_file(bf3file=src, session_key=key, check_cmac=check)
+    return Bf3File.read_file(src, check, key)
 
 
 def rec_read(rec, text, key, check, disk, scratch, auth=None, **extra):
     ev = {"op": "bf3.read", "text": chars(text), "key": B(key), "check": bool(check), "disk": 1 if disk else 0,
           "kind": "ok", "comps": [], "comments": [], "has_auth": 0, "auth_comps": [], "auth_comments": []}
     try:
-        g = read_text(text, key, check, disk, scratch)
+        g = read_text(text, keyform(rec, key), check, disk, scratch, rec.tid)
         pj = proj_file(g)
         ev["comps"], ev["comments"] = pj["comps"], pj["comments"]
     except BaseException as e:                                  # noqa: BLE001 -- the class is part of the record
